@@ -594,8 +594,9 @@ PATTERNS = []
 )
 def load_one(lit: LineIterator) -> dict:
     """Do not edit this docstring. It will be overwritten."""
-    # Use python standard lib json module to read the file to a dict
-    json_in = json.load(lit.fh)
+    # Use python standard lib json module to read the file to a dict.
+    # The text is taken through the line iterator, such that errors report the last line read.
+    json_in = json.loads("".join(lit))
     return _parse_json(json_in, lit)
 
 
